@@ -169,6 +169,15 @@ FN2 == {  \* two parameters: binding order, left-to-right evaluation, by-value, 
   << <<SFunc(0, "helper", <<"a">>, <<Ret(PlusE(Var("a"), Var("a")))>>)>>,
      <<SFunc(0, "outer", <<"helper">>, <<Ret(Call("helper", <<N(1)>>))>>)>>,
      <<Say(Call("outer", <<Call("helper", <<N(2)>>)>>)), SayS("unreachable")>> >>,
+  \* a call with several arguments as the LAST argument of another call (an inner call takes all the arguments that follow it)
+  << <<SFunc(0, "pair", <<"a", "b">>, <<Ret(Bin("minus", Var("a"), <<Var("b")>>))>>)>>,
+     <<Say(Call("pair", <<N(10), Call("pair", <<N(5), N(3)>>)>>)), Put(Call("pair", <<Call("pair", <<N(9)>>), N(1)>>), "r"), SayS("unreachable")>> >>,
+  \* statements run in order, declarations included: a call above the declaration finds no function, a declaration under a
+  \* variable of its name fails there (after what was printed before it)
+  << <<SayS("before"), Say(Call("ff", <<N(1)>>)), SFunc(0, "ff", <<"a">>, <<Ret(Var("a"))>>), SayS("unreachable")>> >>,
+  << <<Put(N(1), "ff"), SayS("between"), SFunc(0, "ff", <<"a">>, <<Ret(Var("a"))>>), SayS("unreachable")>> >>,
+  << <<Put(N(0), "i"), SWhile(0, Lt(Var("i"), N(2)), <<SInc(0, Var("i"), 1), SIf(0, Eq(Var("i"), N(2)), <<Say(Call("ff", <<Var("i")>>))>>, FALSE, <<>>),
+                                                      SFunc(0, "ff", <<"a">>, <<Ret(Var("a"))>>)>>), SayS("unreachable")>> >>,
   \* an assignment reads its right-hand side completely before it writes: `put x plus (a call that changes x) into x` uses the x
   \* read BEFORE the call; and a self-update of a name that does not exist is an error like any other read of it
   << <<SFunc(0, "fun", <<"p">>, <<Put(PlusE(Var("x"), Var("p")), "x"), Ret(Var("p"))>>)>>,
@@ -205,6 +214,12 @@ PRPrograms(z) == {
   \* after `x at y` the last name mentioned is y (the array is read first, the subscript second)
   << <<SRock(0, Var("x"), <<N(10), N(20), N(30)>>), Put(N(1), "y"), Say(Idx(Var("x"), Var("y"))), Say(Pro), SInc(0, Pro, 1), Say(Var("y")),
        SIf(0, Eq(Idx(Var("x"), Var("y")), N(30)), <<Say(Pro)>>, FALSE, <<>>), Put(Idx(Var("x"), Var("y")), "z"), SInc(0, Pro, 5), Say(Var("z")), Say(Var("y"))>> >>,
+  \* an element WRITE through the pronoun: the subscript is evaluated first, so the pronoun is whatever the subscript named last
+  << <<SRock(0, Var("x"), <<N(10), N(20)>>), SRock(0, Var("y"), <<N(0)>>), Say(Var("x")), SAssign(0, Idx(Pro, N(1)), "none", <<N(7)>>), Say(Var("x")),
+       Say(Var("x")), SAssign(0, Idx(Pro, Idx(Var("y"), N(0))), "none", <<N(8)>>), Say(Var("x")), Say(Var("y"))>> >>,
+  << <<SRock(0, Var("x"), <<N(10), N(20)>>), Put(N(1), "y"), Say(Var("x")), SAssign(0, Idx(Pro, Var("y")), "none", <<N(7)>>), SayS("unreachable")>> >>,
+  << <<SFunc(0, "f", <<"p">>, <<Ret(Var("p"))>>)>>,
+     <<SRock(0, Var("x"), <<N(10), N(20)>>), Say(Var("x")), SAssign(0, Idx(Pro, Call("f", <<N(0)>>)), "none", <<N(7)>>), SayS("unreachable")>> >>,
   << <<SFunc(0, "f", <<"p", "q">>, <<SIf(0, Eq(Idx(Var("p"), Var("q")), N(20)), <<Ret(Pro)>>, FALSE, <<>>), Ret(N(0))>>)>>,
      <<SRock(0, Var("x"), <<N(10), N(20)>>), Say(Call("f", <<Var("x"), N(1)>>)), Say(Call("f", <<Var("x"), N(0)>>))>> >>
 }
